@@ -123,16 +123,16 @@ def scn_sched(d: Draw, prof: dict, *, selections: float = 0.0, history: float = 
     return base_scn(spec, ops)
 
 
-P_C02 = gen.profile(**{**gen.SCHED, "p_flag": 0.25})
-P_C03 = gen.profile(**{**gen.SCHED, "p_reuse": 0.5, "p_setup": 0.12, "p_flag": 0.3, "p_unpack": 0.5, "p_fn_unpack": 0.1,
+P_C02 = gen.profile(**{**gen.SCHED, "swarm": ("resources", "p_dep", "max_args", "p_seq", "p_prio"), "p_flag": 0.25})
+P_C03 = gen.profile(**{**gen.SCHED, "swarm": ("resources", "p_dep", "max_args", "p_seq", "p_prio"), "p_reuse": 0.5, "p_setup": 0.12, "p_flag": 0.3, "p_unpack": 0.5, "p_fn_unpack": 0.1,
                        "ret_types": [("int", 4), ("bool", 2), ("tuple2", 3), ("dict", 1)]})
-P_C04 = gen.profile(**{**gen.SCHED, "shape_bias": [("wide", 3), ("uniform", 1)], "mc": (1, 3), "p_flag": 0.05,
+P_C04 = gen.profile(**{**gen.SCHED, "swarm": ("resources", "p_dep", "max_args", "p_seq", "p_prio"), "shape_bias": [("wide", 3), ("uniform", 1)], "mc": (1, 3), "p_flag": 0.05,
                        "resources": [("thread", 4), ("async_thread", 3), ("main_thread", 2)]})
 P_C05 = gen.profile(**{**gen.SCHED, "p_seq": 0.35, "mc": (2, 5), "n_stmts": (3, 10)})
 P_C06 = gen.profile(**{**gen.SCHED, "prio": (-3, 5), "p_prio": 0.85, "p_flag": 0.1})
 P_C06D = gen.profile(**{**gen.SCHED, "prio": (-3, 5), "p_prio": 0.9, "p_flag": 0.05, "p_debug": 0.3, "n_stmts": (3, 10)})
 P_C08 = gen.profile(**{**gen.SCHED, "mc": (2, 5), "n_stmts": (3, 10), "p_seq": 0.15})
-P_C09 = gen.profile(**{**gen.SCHED, "p_flag": 0.25, "p_seq": 0.25, "p_setup": 0.08})
+P_C09 = gen.profile(**{**gen.SCHED, "swarm": ("resources", "p_dep", "max_args", "p_seq", "p_prio"), "p_flag": 0.25, "p_seq": 0.25, "p_setup": 0.08})
 
 
 def g_c02(d: Draw) -> dict:
@@ -186,7 +186,7 @@ def g_c09(d: Draw) -> dict:
 class Prop:
     def __init__(self, pid: str, gen_fn: Callable[[Draw], dict], clauses: Dict[str, str], *,
                  level: str = "exploration", strategies: Optional[List[str]] = None, n_sched: int = 3,
-                 quick: int = 1500, thorough: int = 40000, watchdog: bool = True,
+                 quick: int = 4000, thorough: int = 60000, watchdog: bool = True,
                  nontrivial: str = "concurrent", technique: str = "", fault_enum: bool = False,
                  hashseeds: Optional[List[str]] = None) -> None:
         self.pid, self.gen, self.clauses, self.level = pid, gen_fn, clauses, level
@@ -212,7 +212,7 @@ reg(Prop("C05", g_c05, {"seq_enter": "C05.a", "seq_during": "C05.b"}))
 reg(Prop("C06", g_c06, {"prio": "C06.a"}))
 reg(Prop("C08", g_c08, {"idle": "C08.a", "idle_during": "C08.b"}))
 reg(Prop("C09", g_c09, {"deadlock": "C09.a", "livelock": "C09.b", "early_return": "C09.c", "count_missing": "C09.c"},
-         watchdog=True, fault_enum=True, n_sched=2, quick=300, thorough=8000, level="fault_enumeration", nontrivial="all"))
+         watchdog=True, fault_enum=True, n_sched=2, quick=600, thorough=12000, level="fault_enumeration", nontrivial="all"))
 
 
 # ----------------------------------------------------------------------------- value equivalence family
@@ -235,9 +235,9 @@ def scn_value(d: Draw, prof: dict, *, n_calls: int = 2, config: float = 0.15) ->
 
 
 P_C01 = gen.profile()
-P_C10 = gen.profile(p_flag=0.6, p_flag_const=0.3, w_nested=2.5, p_nested_flag=0.6, w_op=2.5, n_stmts=(2, 8))
+P_C10 = gen.profile(p_flag=0.6, p_flag_const=0.3, w_nested=2.5, p_nested_flag=0.6, w_op=2.5, n_stmts=(2, 8), p_p6=0.15)
 P_C20 = gen.profile(w_nested=7, max_depth=3, p_explicit_default=0.8, p_default=0.6, n_params=(1, 3), p_flag=0.12,
-                    p_nested_flag=0.15, p_same_inner_twice=0.08, n_stmts=(1, 6), p_reuse=0.5)
+                    p_nested_flag=0.15, p_same_inner_twice=0.08, n_stmts=(1, 6), p_reuse=0.5, p_inner_const=0.004)
 
 
 def g_c01(d: Draw) -> dict:
@@ -254,13 +254,13 @@ def g_c20(d: Draw) -> dict:
 
 reg(Prop("C01", g_c01, {"value": "C01.a", "raise": "C01.b", "build_raise": "C01.b"}, nontrivial="multi", n_sched=3))
 reg(Prop("C10", g_c10, {"deact_ran": "C10.a", "count_missing": "C10.a", "value": "C10.b", "args": "C10.c", "raise": "C10.e",
-                        "build_raise": "C10.e"}, nontrivial="multi", n_sched=2))
+                        "build_raise": "C10.e", "livelock": "C10.c", "deadlock": "C10.c"}, nontrivial="multi", n_sched=2))
 reg(Prop("C20", g_c20, {"value": "C20.a", "raise": "C20.a", "args": "C20.b", "count_missing": "C20.b", "count_extra": "C20.b",
                         "build_raise": "C20.c"}, nontrivial="multi", n_sched=2))
 
 
 # ----------------------------------------------------------------------------- fault enumeration (C14, C09 failure part)
-P_C14 = gen.profile(**{**gen.SCHED, "n_stmts": (2, 7), "p_flag": 0.15, "p_seq": 0.2,
+P_C14 = gen.profile(**{**gen.SCHED, "swarm": ("resources", "p_dep", "max_args", "p_seq", "p_prio"), "n_stmts": (2, 7), "p_flag": 0.15, "p_seq": 0.2,
                        "resources": [("thread", 4), ("async_thread", 3), ("main_thread", 3)]})
 
 
@@ -296,7 +296,7 @@ def g_c14(d: Draw) -> dict:
 
 reg(Prop("C14", g_c14, {"noraise": "C14.a", "fail_identity": "C14.b", "dependent_of_failed": "C14.c",
                         "dispatch_after_failure": "C14.d", "wrongexc": "C14.e"},
-         level="fault_enumeration", fault_enum=True, n_sched=4, quick=120, thorough=3000, nontrivial="all"))
+         level="fault_enumeration", fault_enum=True, n_sched=4, quick=250, thorough=5000, nontrivial="all"))
 
 
 # ----------------------------------------------------------------------------- C07 compound priority
@@ -337,7 +337,7 @@ def g_c07(d: Draw) -> dict:
 
 P_C07D = gen.profile(**{**P_C07, "p_debug": 0.3, "w_nested": 0})
 reg(Prop("C07", g_c07, {"cprio_table": "C07.a", "order_mc1": "C07.d", "raise": "C07.a"}, nontrivial="multi", n_sched=2,
-         quick=1200, thorough=30000, hashseeds=["0", "1", "2", "3"]))
+         quick=3000, thorough=40000, hashseeds=["0", "1", "2", "3"]))
 
 
 # ----------------------------------------------------------------------------- selection / debug / setup family
@@ -448,12 +448,12 @@ def g_c11(d: Draw) -> dict:
 
 
 reg(Prop("C12", g_c12, {"graph": "C12.a", "count_missing": "C12.b", "count_extra": "C12.b", "value": "C12.c", "noraise": "C12.d",
-                        "wrongexc": "C12.d", "raise": "C12.c"}, nontrivial="multi", n_sched=2, quick=1500))
+                        "wrongexc": "C12.d", "raise": "C12.c"}, nontrivial="multi", n_sched=2, quick=4000))
 reg(Prop("C13", g_c13, {"count_extra": "C13.a", "count_missing": "C13.b", "debug_input_missing": "C13.c", "value": "C13.d",
                         "args": "C13.d", "noraise": "C13.e", "wrongexc": "C13.e", "raise": "C13.d", "graph": "C13.a"},
-         nontrivial="multi", n_sched=2, quick=1500))
+         nontrivial="multi", n_sched=2, quick=4000))
 reg(Prop("C11", g_c11, {"count_extra": "C11.a", "count_missing": "C11.c", "args": "C11.b", "value": "C11.b", "noraise": "C11.e",
-                        "wrongexc": "C11.e", "raise": "C11.b"}, nontrivial="multi", n_sched=2, quick=1500))
+                        "wrongexc": "C11.e", "raise": "C11.b"}, nontrivial="multi", n_sched=2, quick=4000))
 
 
 # ----------------------------------------------------------------------------- cache / compose / leak family
@@ -565,11 +565,11 @@ def g_c15(d: Draw) -> dict:
 
 
 reg(Prop("C18", g_c18, {"value": "C18.a", "count_extra": "C18.b", "cache_keys": "C18.c", "count_missing": "C18.d", "raise": "C18.a"},
-         nontrivial="multi", n_sched=2, quick=1500))
+         nontrivial="multi", n_sched=2, quick=4000))
 reg(Prop("C19", g_c19, {"value": "C19.a", "count_extra": "C19.b", "count_missing": "C19.b", "noraise": "C19.c", "wrongexc": "C19.c",
-                        "state_leak": "C19.d", "raise": "C19.a", "args": "C19.a"}, nontrivial="multi", n_sched=2, quick=1500))
+                        "state_leak": "C19.d", "raise": "C19.a", "args": "C19.a"}, nontrivial="multi", n_sched=2, quick=4000))
 reg(Prop("C15", g_c15, {"value": "C15.a", "count_extra": "C15.a", "count_missing": "C15.a", "args": "C15.a", "raise": "C15.a",
-                        "state_leak": "C15.b", "rerun": "C15.c", "noraise": "C15.a"}, nontrivial="multi", n_sched=2, quick=1500))
+                        "state_leak": "C15.b", "rerun": "C15.c", "noraise": "C15.a"}, nontrivial="multi", n_sched=2, quick=4000))
 
 
 # ----------------------------------------------------------------------------- C16 thread safety
@@ -609,7 +609,7 @@ def g_c16(d: Draw) -> dict:
 
 reg(Prop("C16", g_c16, {"value": "C16.a", "build_table": "C16.c", "raise": "C16.d", "wrongexc": "C16.d", "noraise": "C16.d",
                         "args": "C16.a", "count_extra": "C16.a", "count_missing": "C16.a"},
-         nontrivial="concurrent", n_sched=3, quick=1200, thorough=30000))
+         nontrivial="concurrent", n_sched=3, quick=2500, thorough=40000))
 
 
 # ----------------------------------------------------------------------------- C17 async flavour
@@ -647,5 +647,5 @@ def g_c17(d: Draw) -> dict:
 
 
 reg(Prop("C17", g_c17, {"value": "C17.a", "count_missing": "C17.a", "count_extra": "C17.a", "args": "C17.b", "state_leak": "C17.a",
-                        "raise": "C17.a", "loop_blocked": "C17.c", "deadlock": "C17.c", "livelock": "C17.c", "thread_pool": "C17.c"},
-         nontrivial="concurrent", n_sched=3, quick=1200, thorough=30000, watchdog=True))
+                        "raise": "C17.a", "loop_blocked": "C17.c", "deadlock": "C17.c", "livelock": "C17.c", "loop_runs_node": "C17.c"},
+         nontrivial="concurrent", n_sched=3, quick=2500, thorough=40000, watchdog=True))
